@@ -117,7 +117,12 @@ def run_case(case, ctx):
             bb = bridge.mk_bb(sig, base)
             mk = (lambda: PreOCF.init_system_z(bb)) if kind == "z" else (lambda: PreOCF.init_random_min_c_rep(bb))
             ocf = mk()
-            rk = dict(mk().compute_all_ranks())        # reference values from a twin object
+            if kind == "c":
+                # several Pareto-minimal impact vectors may exist: reference from THIS object's impacts
+                imp0 = tuple(ocf.save_impacts())
+                rk = {world_str(w, n): ref.kappa_pat(imp0, ref.fal_pattern(sem, w)) for w in range(1 << n)}
+            else:
+                rk = dict(mk().compute_all_ranks())    # System Z ranking is unique: twin object as reference
             # the object under test stays lazily filled: only a drawn subset of worlds is ranked
             for w in case.get("pre", []):
                 ocf.rank_world(world_str(w % (1 << n), n))
